@@ -14,7 +14,7 @@ PROPS["C16"] = dict(
             dict(name="postfix", harness="c16.cpp", flavor="asan", mode="postfix", cases=dict(quick=3, thorough=3))],
     rule="case = (address type, kind in {addresses+ordering+hash+spellings, all prefix lengths of one base, 8 from_mask ranges, 6 explicit ranges, 40 near-valid texts}); "
          "distinct = distinct value tuple / distinct range (first,last,hosts) walked / distinct text; non-trivial = every case performs model comparisons (counters chk:*)",
-    floors=dict(any={"classification:ipv4": 10000, "classification:ipv6": 10000, "classification:ipv4:private": 1000, "classification:ipv6:local-unicast": 1000, "classification:hw": 500,
+    floors=dict(any={"walks:with-post-increment": 1000, "classification:ipv4": 10000, "classification:ipv6": 10000, "classification:ipv4:private": 1000, "classification:ipv6:local-unicast": 1000, "classification:hw": 500,
         "distinct": 20000,
         "chk:round-trip": 20000, "chk:order-pairs": 200000, "chk:hash": 20000, "chk:contains": 500000, "chk:walk-steps": 5000000,
         "chk:text-must-accept": 50000, "chk:text-must-reject": 50000, "chk:prefix-mask": 50000, "chk:begin": 50000, "chk:post-increment-walks-started": 3,
